@@ -266,6 +266,99 @@ def evaluate(wname, opt, times, layouts):
     return v, tuple(parsed)
 
 
+SHIFTS = [0, 250000, "touch", 30000000]
+
+
+def evaluate_multi(wname, opt, times, shift, swap):
+    """two languages; the second one's cues are the first one's shifted (coinciding / interleaved / touching / all later);
+    swap: the shifted language comes first. Every language must keep exactly its own cue sequence (integer times)."""
+    from pycaption import Caption, CaptionList, CaptionNode, CaptionSet
+
+    sh = (times[0][1] - times[0][0]) if shift == "touch" else shift
+    per = {"en-US": list(times), "fr-FR": [(a + sh, b + sh) for a, b in times]}
+    order = ["fr-FR", "en-US"] if swap else ["en-US", "fr-FR"]
+    cs = CaptionSet({l: CaptionList([Caption(a, b, [CaptionNode.create_text(f"{l[:2]}{i}")]) for i, (a, b) in enumerate(per[l])]) for l in order})
+    w = writer_obj(wname, opt)
+    try:
+        doc = w.write(cs)
+    except Exception as e:  # noqa
+        return [(f"C02/{wname}/two-languages/raises:{type(e).__name__}", {"err": str(e)[:200]})], "raises"
+    err = None
+    try:
+        if wname == "SAMIWriter":
+            got = {l: [] for l in order}
+            for sy in parsers.parse_sami(doc)["syncs"]:
+                raw = sy["start_raw"]
+                if raw is None or not raw.isdigit():
+                    err = f"sync start {raw!r} is not an integer millisecond count"
+                    break
+                for para in sy["ps"]:
+                    if para["class"] not in got:
+                        err = f"paragraph of unknown class {para['class']!r}"
+                        break
+                    got[para["class"]].append((int(raw), "blank" if parsers.sami_is_blank(para) else "text"))
+            for l in order:
+                if err:
+                    break
+                want = []
+                for i, (st, en) in enumerate(per[l]):
+                    want.append((st // 1000, "text"))
+                    if i + 1 < len(per[l]) and per[l][i + 1][0] // 1000 != en // 1000:
+                        want.append((en // 1000, "blank"))
+                if got[l] != want:
+                    err = f"sync sequence of {l}: got {got[l]} want {want}"
+            parsed = tuple(tuple(got[l]) for l in order)
+        else:
+            t = parsers.parse_ttml(doc)
+            if [d_["lang"] for d_ in t["divs"]] != order:
+                err = f"divs {[d_['lang'] for d_ in t['divs']]} want {order}"
+            parsed = []
+            for d_, l in zip(t["divs"], order):
+                if err:
+                    break
+                got = [(p_["start"], p_["end"]) for p_ in d_["ps"]]
+                parsed.append(tuple(got))
+                ms = [({a // 1000}, {b // 1000}) for a, b in per[l]]
+                e1 = match_plain(got, ms)
+                if e1 and wname != "DFXPWriter":
+                    e1 = match_plain(got, [m for i, m in enumerate(ms) if not (i and per[l][i - 1] == per[l][i])])
+                if e1:
+                    err = f"{l}: {e1}"
+            parsed = tuple(parsed)
+    except parsers.ParseError as e:
+        return [(f"C02/{wname}/two-languages/output-unparseable", {"err": str(e)[:300], "doc": doc[:300]})], "unparseable"
+    if err:
+        kind = err.split(":")[0].split(" ")[0]
+        rel = "coinciding" if sh == 0 else ("touching" if shift == "touch" else ("interleaved" if sh < 10000000 else "disjoint"))
+        return [(f"C02/{wname}/two-languages/{kind}/{rel}" + ("/shifted-language-first" if swap else ""), {"err": err, "times": per, "doc": doc[:900]})], tuple(parsed)
+    return [], tuple(parsed)
+
+
+def evaluate_history(wname, opt, times, layouts):
+    """the captions of the set were created with other times, printed / formatted, and then given their final times by
+    assignment (what adjust_caption_timing-like user code does): the writers must write the final times"""
+    v = []
+    real_build = build_set
+
+    def build_with_history(times_, layouts_):
+        cs = real_build([(a + 1234567, b + 7654321) for a, b in times_], layouts_)
+        for c, (a, b) in zip(cs.get_captions("en-US"), times_):
+            repr(c)
+            c.format_start()
+            c.format_end()
+            c.format_start(",")
+            c.format_end(",")
+            c.start, c.end = a, b
+        return cs
+
+    globals()["build_set"] = build_with_history
+    try:
+        v, out = evaluate(wname, opt, times, layouts)
+    finally:
+        globals()["build_set"] = real_build
+    return [(sig + "/captions-formatted-before-their-times-were-set", det) for sig, det in v], out
+
+
 def opts_for(w):
     if w == "WebVTTWriter":
         return ["default", "lang", "norel"]
@@ -296,7 +389,10 @@ def reuse_eval(item):
 
 
 def shards(tier, seed):
-    sh = [{"reuse": True}]
+    sh = [{"reuse": True}, {"history": True}]
+    for w in ("SAMIWriter", "DFXPWriter", "SinglePositioningDFXPWriter", "LegacyDFXPWriter"):
+        for part in range(4):
+            sh.append({"multi": w, "part": part, "nparts": 4, "stride": 40 if tier == "quick" else 400})
     for w in WRITERS:
         nparts = 8 if w in SLOW else 2
         for part in range(nparts):
@@ -331,6 +427,37 @@ def run_shard(d):
     if d.get("reuse"):
         shared.run(acc, reuse_items(), reuse_eval, sample=lambda it: {"reuse_run_step": [it[0], it[1], it[2]]})
         return acc.result()
+    if d.get("history"):
+        for i, item in enumerate(reuse_items()):
+            v, out = evaluate_history(*item)
+            acc.case(("history",) + tuple(map(str, item)), True, out, {"captions_formatted_then_retimed": True, "writer": item[0], "caption_times_us": item[2]})
+            for sig, det in v:
+                acc.violation(sig, {"history": True, "item": i}, det)
+        return acc.result()
+    if d.get("multi"):
+        w = d["multi"]
+        n = 0
+        ints = [x for x in grid_instants() if isinstance(x, int)]
+        # cues sorted and non-overlapping within a language: with several languages SAMI files a paragraph in the
+        # SYNC block of its start time, so only then is "in order" defined
+        for t in ints[:: max(1, len(ints) // d["stride"])]:
+            for dur in DURS[:2]:
+                for g1 in ("touch", "+1ms", "far"):
+                    for g2 in ("touch", "+1ms", "far"):
+                        n += 1
+                        if n % d["nparts"] != d["part"]:
+                            continue
+                        times = times_for(t, dur, g1, g2)
+                        if max(e for _, e in times) + 31000000 >= 86400000000:
+                            continue
+                        for shift in SHIFTS:
+                            for swap in (False, True):
+                                opt = opts_for(w)[n % len(opts_for(w))] if opts_for(w)[n % len(opts_for(w))] != "force" else "default"
+                                v, out = evaluate_multi(w, opt, times, shift, swap)
+                                acc.case(("multi", w, opt, times, shift, swap), True, out, {"writer": w, "two_languages": True, "caption_times_us": times, "second_language_shift": shift, "shifted_language_first": swap})
+                                for sig, det in v:
+                                    acc.violation(sig, {"multi": True, "w": w, "opt": opt, "times": times, "shift": shift, "swap": swap}, det)
+        return acc.result()
     w = d["w"]
     opts = opts_for(w)
     for times, layouts in cases_for(d):
@@ -347,6 +474,12 @@ def run_shard(d):
 def replay(case):
     if case.get("reuse"):
         return shared.replay(reuse_items(), reuse_eval, case["index"])
+    if case.get("history"):
+        v, _ = evaluate_history(*reuse_items()[case["item"]])
+        return [{"sig": s, "detail": d} for s, d in v]
     times = [tuple(t) for t in case["times"]]
+    if case.get("multi"):
+        v, _ = evaluate_multi(case["w"], case["opt"], times, case["shift"], case["swap"])
+        return [{"sig": s, "detail": d} for s, d in v]
     v, _ = evaluate(case["w"], case["opt"], times, case["layouts"])
     return [{"sig": s, "detail": d} for s, d in v]
